@@ -29,6 +29,9 @@ CLAIMED = {
  "C19": dict(cat="proof", ref="5 C19", tech=TECH + "; cancel-point assertion for the abandoned-send clause",
    text="the two transport adapters of zlink-tokio and zlink-smol: ReadHalf::read is a pass-through of the runtime read; WriteHalf::write hands the runtime exactly buf, in order, nothing else (loop invariant sent = buf[..pos], termination given n >= 1), a prefix on error. The abandoned-send clause is a cancel-point obligation in the write loop; it FAILS in both crates and is reported as two KNOWN-FINDINGs (reproduced on real sockets by replay_rt)",
    note="assumed: kernel FIFO and runtime write/read contracts (trusted leaves); composition with C01/C02 on paper; listener from inherited fd, connection ids, bidirectional concurrency not decided"),
+ "C13": dict(cat="proof", ref="5 C13", tech=TECH,
+   text="token level only: for ALL byte strings the hand-written scanners ws, whitespace_only, bytes_to_str, field_name, type_name, interface_name and the look-ahead of inline_type never index out of bounds, never unwrap an Err, terminate (decreases on every loop), consume exactly the returned token (token + rest = input; untouched on Err), and the token is maximal and in its Varlink class (type name [A-Z][A-Za-z0-9]*; interface name position-wise equivalent of the grammar production; field name [A-Za-z][A-Za-z0-9_]*)",
+   note="NOT decided: the grammar level (everything built from winnow combinators): member structure, source order, 'never ignores part of the text'; comment_def; underscore placement in field names; leaf contracts for multispace0 / from_utf8 / position / contains assumed"),
  "C17": dict(cat="proof", ref="5 C17", tech=TECH,
    text="inbound and outbound buffer length <= MAX_BUFFER_SIZE on every exit; BufferOverflow only when the undelivered / pending bytes reach the limit; refused outbound message leaves pending bytes and log unchanged; proved for the production constants",
    note="assumed: vstd Vec specs, to_slice contract; serde_json heap use and Vec capacity not covered"),
@@ -44,7 +47,6 @@ NA = {
  "C15": "compilation and wire behaviour of code produced by codegen -> proc-macros -> serde; per-program property over generated code",
  "C16": "derive-macro output and macro-generated const TYPE impls; equality of compile-time constants per program",
  "C20": "semantics of tokio broadcast / async-broadcast channels under task interleavings; Kani has no threads, Verus would need permission types for code we do not own",
- "C13": "not yet built (planned: unit idl_tokens)",
 }
 EXTRA = os.path.join(HERE, "tools", "manifest_extra.json")
 if os.path.exists(EXTRA):
